@@ -1,10 +1,12 @@
 #!/bin/sh
-# Run every thorough tier once, end to end (sizing); evidence to a scratch dir.
+# Run every thorough tier once, end to end; evidence to a scratch dir so that
+# the committed evidence stays the one written by the quick commands.
 cd /verif
-for id in C13 C08 C18 C19 C11 C14 C01 C09 C03 C04 C17 C02 C07 C12 C20 C10 C15 C05 C16 C06; do
+mkdir -p /verif/.work/thorough-ev
+for id in ${THOROUGH_IDS:-C06 C02 C03 C05 C12 C11 C04 C14 C10 C01 C07 C09 C15 C16 C17 C20 C19 C18 C08 C13}; do
   start=$(date +%s)
-  VERIF_EVIDENCE_DIR=/verif/.work/thorough-ev VERIF_REPLAY_DIR=/verif/.work/thorough-ev/replays VERIF_JOBS=${TJOBS:-8} ./vf $id --tier thorough > /verif/.work/thorough-$id.out 2>&1
+  VERIF_EVIDENCE_DIR=/verif/.work/thorough-ev VERIF_REPLAY_DIR=/verif/.work/thorough-ev/replays VERIF_JOBS=${TJOBS:-16} ./vf $id --tier thorough > /verif/.work/thorough-$id.out 2>&1
   rc=$?
   end=$(date +%s)
-  echo "$id rc=$rc wall=$((end-start))s $(head -1 /verif/.work/thorough-$id.out | cut -c1-160)" >> /verif/.work/thorough.log
+  echo "$id rc=$rc wall=$((end-start))s $(grep -m1 'tier=thorough' /verif/.work/thorough-$id.out | cut -c1-170)" >> /verif/.work/thorough.log
 done
